@@ -103,11 +103,11 @@ Definition mstate := (heap * book)%type.
 (* One-line switches, read by harness/c14.py (overridable by VERIF_C14_FIXED / VERIF_C14_EDGES_FIXED).
    fixed_state_carry: true since fix D74 (with in_place=False the state bookkeeping is read from and written to the deep
    copy, `self` keeps the bookkeeping it had); false = the mechanism before D74, kept for the regression lemmas.
-   fixed_shared_edge_dicts: false = the code as it is: update_template without `edges` hands `self.edges` to the constructor,
-   which builds new tuples around the SAME attribute dictionaries, so an edge update on the derived template is an edge update
-   on its base; true = the proposed repair /verif/fixes/proposed_fix_C14_shared_edge_dicts.diff (the edge list is deep-copied). *)
+   fixed_shared_edge_dicts: true since fix D82 (update_template without `edges` deep-copies the edge list); false = the
+   mechanism before D82, kept for the regression lemma: `self.edges` was handed to the constructor, which built new tuples
+   around the SAME attribute dictionaries, so an edge update on the derived template was an edge update on its base. *)
 Definition fixed_state_carry : bool := true.
-Definition fixed_shared_edge_dicts : bool := false.
+Definition fixed_shared_edge_dicts : bool := true.
 
 Definition mstep_gen (fixed fixed_e : bool) (d : nat) (r : id) (s : mstate) (o : mop) : mstate * mout :=
   let '(h, b) := s in
@@ -153,7 +153,7 @@ Fixpoint mrun_gen (fixed fixed_e : bool) (d : nat) (r : id) (s : mstate) (ops : 
 Definition mstep := mstep_gen fixed_state_carry fixed_shared_edge_dicts.     (* the code as it is *)
 Definition mrun := mrun_gen fixed_state_carry fixed_shared_edge_dicts.
 
-(* guard of the known finding C14-shared-edge-dicts *)
+(* guard of the former finding C14-shared-edge-dicts (needed only for fixed_e = false) *)
 Definition is_derive_edit (o : mop) : bool := match o with MDeriveEdit _ _ _ => true | _ => false end.
 Definition no_derive_edit (ops : list mop) : bool := negb (existsb is_derive_edit ops).
 
